@@ -29,6 +29,7 @@ package main
 
 import (
 	"fmt"
+	"os"
 	"sort"
 	"strconv"
 	"strings"
@@ -154,7 +155,11 @@ var (
 
 func vm() *gnorun.Pkg {
 	if pkg == nil {
-		runner = gnorun.New("/repo")
+		root := os.Getenv("VERIF_REPO") // same override the runner honours
+		if root == "" {
+			root = "/repo"
+		}
+		runner = gnorun.New(root)
 		p, perr := runner.Load("main", "main", map[string]string{"main.gno": gnoSrc})
 		if perr != nil {
 			panic("cannot load gno driver package: " + perr.String())
